@@ -378,6 +378,49 @@ def rule_r6(repo, run):
                       repo.module("whelpers").loc(h.node), sample=dict(helper=key))
 
 
+def rule_r7(repo, run):
+    R = run.rule("C06.R7", "an explicit +free_pattern decides how caller-owned pointer memory is released, "
+                           "whatever the type's default destructor is")
+    from sa import decide
+    wm = repo.module("wrapc")
+    f = wm.func("Wrapc.find_idtor")
+    chains = [n for n in f.body if isinstance(n, ast.If) and any(
+        isinstance(x, ast.Name) and x.id == "free_pattern" for y in ast.walk(n) for x in [y])]
+    if len(chains) != 1:
+        raise AnalysisError("C06.R7: decision chain on free_pattern not found in find_idtor")
+    chain = chains[0]
+    ats = decide.chain_atoms([chain])
+    fixed = {}
+    for a in ats:
+        if re.match(r"^owner == ['\"]library['\"]$", a):
+            fixed[a] = False
+        elif a.endswith(".is_pointer()"):
+            fixed[a] = True
+        elif a == "free_pattern is not None":
+            fixed[a] = True
+        elif a == "free_pattern is None":
+            fixed[a] = False
+        elif a == "free_pattern":
+            fixed[a] = True
+    if not any("free_pattern" in a for a in fixed) or not any(a.endswith(".is_pointer()") for a in fixed):
+        raise AnalysisError("C06.R7: expected tests on free_pattern / is_pointer() in find_idtor: %s" % ats)
+    n = 0
+    bad = []
+    for asg, taken in decide.outcomes([chain], fixed):
+        if taken is None:
+            continue
+        n += 1
+        uses = any(isinstance(x, ast.Name) and x.id == "free_pattern" for st in taken for x in ast.walk(st))
+        if not uses:
+            bad.append(", ".join("%s=%s" % (k, v) for k, v in sorted(asg.items()) if k not in fixed))
+    run.check(R, "wrapc.Wrapc.find_idtor:free_pattern-precedence", not bad,
+              "with +owner(caller)+free_pattern(p) on a pointer result the destructor is chosen without looking at "
+              "free_pattern when %s: the memory is released with the type's default (delete/free) instead of the "
+              "user's pattern" % "; or ".join(bad[:3]), wm.loc(chain),
+              sample=dict(fixed=fixed, outcomes=n))
+    run.floor(R, "decision outcomes enumerated", n, 4)
+
+
 def run(repo, run, tier):
     tables.check_model_assumptions(repo)
     table = tables.StatementTable(repo, "statements", "fc_statements")
@@ -391,13 +434,29 @@ def run(repo, run, tier):
     R5 = run.rule("C06.R5", "no wrapper helper reads or writes outside the buffers it was given (bounds proofs, see C10.R1)")
     sub = type(run)(run.prop, run.tier, write=False, known={"findings": [], "fixed": []})
     c10.rule_r1(repo, sub, helpers)
+    # only the memory-safety part: text-conversion conventions (blank scan, blank fill, NUL placement)
+    # belong to C10 and do not affect which memory is touched
+    def safety(c):
+        return not c.endswith((":blank-scan", ":blank-fill", ":no-NUL-in-dest"))
     for v in sub.violations:
-        run.fail(R5, v["construct"].replace("C10", "C06"), v["message"], v["loc"])
-    r = sub.rules["C10.R1"]
-    for i in range(r["discharged"]):
-        pass
-    run.rules[R5]["obligations"] += r["discharged"]
-    run.rules[R5]["discharged"] += r["discharged"]
-    run.nontrivial.update(("C06.R5", c) for (rr, c) in sub.nontrivial)
+        if safety(v["construct"]):
+            run.fail(R5, v["construct"].replace("C10", "C06"), v["message"], v["loc"])
+    failed = set(v["construct"] for v in sub.violations)
+    kept = [c for (rr, c) in sub.nontrivial if safety(c) and c not in failed]
+    run.rules[R5]["obligations"] += len(kept)
+    run.rules[R5]["discharged"] += len(kept)
+    run.nontrivial.update(("C06.R5", c) for c in kept)
     run.samples.extend([dict(s, rule="C06.R5") for s in sub.samples[:2]])
+    # R5 (call sites): the temporaries handed to the library are as large as the library may write
+    sub2 = type(run)(run.prop, run.tier, write=False, known={"findings": [], "fixed": []})
+    c10.rule_r2(repo, sub2, table)
+    for v in sub2.violations:
+        if "ShroudStrAlloc(" in v["construct"] or "ShroudStrArrayAlloc(" in v["construct"]:
+            run.fail(R5, v["construct"], v["message"], v["loc"])
+    kept = [c for (rr, c) in sub2.nontrivial if ("ShroudStrAlloc(" in c or "ShroudStrArrayAlloc(" in c)
+            and c not in set(v["construct"] for v in sub2.violations)]
+    run.rules[R5]["obligations"] += len(kept)
+    run.rules[R5]["discharged"] += len(kept)
+    run.nontrivial.update(("C06.R5", c) for c in kept)
     rule_r6(repo, run)
+    rule_r7(repo, run)
